@@ -34,9 +34,47 @@ def h_read(eng, st, args, site):
     return [(st, v)]
 
 
+IE_BITS = [("vblank", 0x01), ("stat", 0x02), ("timer", 0x04), ("serial", 0x08), ("joypad", 0x10)]
+
+
 def h_write(eng, st, args, site):
-    st.trace = st.trace + (("W", args[1], args[2], st.ghost.get("cycle", 0), str(args[0].obj)),)
+    """the bus, seen from the CPU: an event of the trace - and, because IE (FFFF) and IF (FF0F) are memory mapped, a write to
+    one of these two addresses changes the interrupt registers the CPU itself consults (stack or data placed there). The two
+    effects are the contracts of Interrupts.WriteIE / WriteIF behind the decoder's routing (C06 lemma, C04 contracts)."""
+    addr, val = args[1], args[2]
+    st.trace = st.trace + (("W", addr, val, st.ghost.get("cycle", 0), str(args[0].obj)),)
+    ip = (st.ghost.get("ints_of") or {}).get(str(args[0].obj), st.ghost.get("ints"))
+    if ip is not None:
+        tid = eng.p.named["interrupts.Interrupts"]
+
+        def upd(name, cond, new):
+            path = eng.p.field_index(tid, name)
+            if path is None:
+                return
+            ptr = Ptr(ip, tuple(i for i, _ in path))
+            old = eng.load(st, ptr)
+            eng.store(st, ptr, z3.If(cond, new, old))
+        is_ie, is_if = addr == 0xFFFF, addr == 0xFF0F
+        upd("ieHighBits", is_ie, val & 0xe0)
+        for nm, bit in IE_BITS:
+            upd(nm + "Enabled", is_ie, (val & bit) != 0)
+            upd(nm + "Requested", is_if, (val & bit) != 0)
     return [(st, None)]
+
+
+def intr_after_writes(fields, writes):
+    """spec side of the same fact: the interrupt register fields after a sequence of bus writes (addr, value)"""
+    out = dict(fields)
+    for (addr, val) in writes:
+        is_ie, is_if = addr == 0xFFFF, addr == 0xFF0F
+        out["ieHighBits"] = z3.If(is_ie, val & 0xe0, out["ieHighBits"])
+        for nm, bit in IE_BITS:
+            out[nm + "Enabled"] = z3.If(is_ie, (val & bit) != 0, out[nm + "Enabled"])
+            out[nm + "Requested"] = z3.If(is_if, (val & bit) != 0, out[nm + "Requested"])
+    return out
+
+
+INTR_FIELDS = ["ieHighBits"] + [nm + sfx for nm, _ in IE_BITS for sfx in ("Enabled", "Requested")]
 
 
 def h_trigger(eng, st, args, site):
@@ -67,6 +105,7 @@ def make_base(ctx, eng, ce, second_cpu=False):
     b.st, b.w, b.cpu = st, w, cpu
     b.tid = ctx.prog.named["cpu.CPU"]
     b.ints = w.component("interrupts.Interrupts")
+    st.ghost["ints"] = b.ints.obj
     # instruction boundary as left by cpu.New: no sub-instructions pending, cycle 0
     set_field(eng, st, b, "currentCycle", z3.BitVecVal(0, 64))
     set_field(eng, st, b, "debugCPU", z3.BoolVal(False))
@@ -322,9 +361,11 @@ def instruction_lemma(ctx, eng, ce, b, op, cb=None, haltbug=False):
                 out["accesses"].append((z3.And(guard, z3.Or(*accv)) if accv else z3.BoolVal(False), s))
             # frame: interrupt state, run state
             fr = []
-            for nm in ("vblankEnabled", "statEnabled", "timerEnabled", "serialEnabled", "joypadEnabled", "ieHighBits",
-                       "vblankRequested", "statRequested", "timerRequested", "serialRequested", "joypadRequested"):
-                fr.append(ifld(eng, s, b, nm) != ifld(eng, pre_state, b, nm))
+            # interrupt registers: unchanged, except through the instruction's own documented stores to FFFF / FF0F
+            want_i = intr_after_writes({nm: ifld(eng, pre_state, b, nm) for nm in INTR_FIELDS},
+                                       [(wv[2], wv[3]) for wv in sp.events if wv[1] == "W"])
+            for nm in INTR_FIELDS:
+                fr.append(ifld(eng, s, b, nm) != want_i[nm])
             # master enable in force while this instruction runs: IME, or an EI whose one-instruction delay ends with this fetch
             ime_eff = z3.Or(pre["ime"], armed(eng, pre_state, b))
             if sp.ime is None:
@@ -471,12 +512,13 @@ def dispatch_check(eng, b, pre_state, s, n, want_cycles, guard, allow_reads=Fals
     v["vector"] = fld(eng, s, b, "pc") != z3.BitVecVal(0x40, 16) + idx * 8
     v["sp"] = fld(eng, s, b, "sp") != sp0 - 2
     v["ime"] = z3.Or(ifld(eng, s, b, "ime"), armed(eng, s, b))   # cleared, and no delayed enable survives the dispatch
-    ifv = []
+    # IF: exactly the chosen bit cleared, IE untouched - decided on the registers as they are at the boundary; only then the two
+    # pushes go out on the bus (and, should the stack lie on FFFF / FF0F, land in IE / IF like any other store)
+    f0 = {nm: ifld(eng, pre_state, b, nm) for nm in INTR_FIELDS}
     for i, e in enumerate(IBITS):
-        ifv.append(ifld(eng, s, b, e + "Requested") != z3.And(ifld(eng, pre_state, b, e + "Requested"), idx != i))
-        ifv.append(ifld(eng, s, b, e + "Enabled") != ifld(eng, pre_state, b, e + "Enabled"))
-    ifv.append(ifld(eng, s, b, "ieHighBits") != ifld(eng, pre_state, b, "ieHighBits"))
-    v["if-ie"] = z3.Or(*ifv)
+        f0[e + "Requested"] = z3.And(f0[e + "Requested"], idx != i)
+    want_i = intr_after_writes(f0, [(sp0 - 1, z3.Extract(15, 8, pc0)), (sp0 - 2, z3.Extract(7, 0, pc0))])
+    v["if-ie"] = z3.Or(*[ifld(eng, s, b, nm) != want_i[nm] for nm in INTR_FIELDS])
     evs = bus_events(s.trace)[len(bus_events(pre_state.trace)):]
     if len(evs) != 2 or evs[0][0] != "W" or evs[1][0] != "W":
         v["stack"] = z3.BoolVal(True)
@@ -780,6 +822,8 @@ def two_instance_lemma(ctx, eng, ce):
         b.st, b.w, b.cpu = st, w, cpu
         b.tid = ctx.prog.named["cpu.CPU"]
         b.ints = w.component("interrupts.Interrupts")
+        # each instance's bus reaches that instance's own IE / IF
+        st.ghost.setdefault("ints_of", {})[str(fld(eng, st, b, "mapper").obj)] = b.ints.obj
         set_field(eng, st, b, "currentCycle", z3.BitVecVal(0, 64))
         set_field(eng, st, b, "debugCPU", z3.BoolVal(False))
         bases.append(b)
